@@ -1,22 +1,196 @@
-(* C19_witness.v — concrete witnesses (computed) for the C19 findings and the
-   non-vacuity examples. *)
-From Verif Require Import lib.Base lib.Str lib.PyIntDec model.RouteSpec model.RouteUrl.
+(* C19_witness.v — concrete witnesses (computed) for the C19 findings, the
+   record of the repaired defect F19path, and the non-vacuity examples. *)
+From Verif Require Import lib.Base lib.Str lib.PyIntDec model.RouteSpec model.RouteUrl
+     proofs.C19_spec proofs.C19_int.
 Local Open Scope N_scope.
 
-(* rule /<x:int><y:int>, both wildcards use compiled filter 0 = int *)
-Definition k_int (_ : fid) : fkind := KInt.
 Definition no_rx (_ : fid) (_ : str) : option nat := None.
-Definition no_fconv (s : str) : str := s.
+Definition id_fconv (s : str) : str := s.
 
+(* ------------------------------------------------------------------ *)
+(* rule /<x:int><y:int>, path "12-0": the url is "120"                 *)
+
+Definition k_int (_ : fid) : fkind := KInt.
 Definition pat_int_int : pat := [Wild (Some 0%nat); Wild (Some 0%nat)].
 Definition names_xy : list str := [[120]; [121]].
 
 Lemma int_adjacent_witness :
-  let filt := handler k_int no_rx no_fconv in
+  let filt := handler k_int no_rx id_fconv in
   let p := [49; 50; 45; 48] in                       (* "12-0" *)
   exists vs u,
     match1 filt pat_int_int p = Some vs /\
-    url_of_match k_int no_rx no_fconv pat_int_int names_xy vs = UOk u /\
+    url_of_match k_int no_rx id_fconv pat_int_int names_xy vs = UOk u /\
     u = [49; 50; 48] /\                               (* "120" *)
     match1 filt pat_int_int u = None.
 Proof. vm_compute. eexists. eexists. repeat split. Qed.
+
+(* ------------------------------------------------------------------ *)
+(* float: a regex engine for -?\d+(\.\d+)? and a float printer that
+   agrees with Python on the two witnesses                              *)
+
+Definition k_float (_ : fid) : fkind := KFloat.
+
+Definition float_rx (_ : fid) (s : str) : option nat :=
+  match int_rx s with
+  | None => None
+  | Some n =>
+    match skipn n s with
+    | 46 :: r => match count_digits r with
+                 | O => Some n
+                 | S m => Some (n + 1 + S m)%nat
+                 end
+    | _ => Some n
+    end
+  end.
+
+Definition s_0_00001 : str := [48; 46; 48; 48; 48; 48; 49].                 (* "0.00001" *)
+Definition s_1e_05 : str := [49; 101; 45; 48; 53].                          (* "1e-05" *)
+Definition s_big : str := [57; 57; 57; 57].                                 (* stands for 400 nines *)
+Definition s_inf : str := [105; 110; 102].                                  (* "inf" *)
+
+(* str(float("0.00001")) = "1e-05" ; str(float("9"*400)) = "inf" *)
+Definition py_fconv (s : str) : str :=
+  if str_eqb s s_0_00001 then s_1e_05 else if str_eqb s s_big then s_inf else s.
+
+Definition pat_f : pat := [Lit [102; 47]; Wild (Some 0%nat)].               (* /f/<x:float> *)
+Definition names_x : list str := [[120]].
+
+Lemma float_exponent_witness :
+  let filt := handler k_float float_rx py_fconv in
+  let p := [102; 47] ++ s_0_00001 in                                        (* "f/0.00001" *)
+  exists vs u,
+    match1 filt pat_f p = Some vs /\
+    url_of_match k_float float_rx py_fconv pat_f names_x vs = UOk u /\
+    u = [102; 47] ++ s_1e_05 /\                                             (* "f/1e-05" *)
+    match1 filt pat_f u = None.
+Proof. vm_compute. eexists. eexists. repeat split. Qed.
+
+Lemma float_inf_witness :
+  let filt := handler k_float float_rx py_fconv in
+  let p := [102; 47] ++ s_big in
+  exists vs,
+    match1 filt pat_f p = Some vs /\
+    url_of_match k_float float_rx py_fconv pat_f names_x vs = UAssertionError.
+Proof. vm_compute. eexists. repeat split. Qed.
+
+(* ------------------------------------------------------------------ *)
+(* the re filter with mask "a-star" matching the empty string: rule /<x.re(a-star)>z, path "z" *)
+
+Definition k_re (_ : fid) : fkind := KRe.
+
+Fixpoint count_a (s : str) : nat :=
+  match s with
+  | 97 :: r => S (count_a r)
+  | _ => O
+  end.
+
+Definition a_star_rx (_ : fid) (s : str) : option nat := Some (count_a s).
+
+Definition pat_az : pat := [Wild (Some 0%nat); Lit [122]].
+
+Lemma empty_match_witness :
+  let filt := handler k_re a_star_rx id_fconv in
+  exists vs,
+    match1 filt pat_az [122] = Some vs /\
+    vs = [[]] /\
+    url_of_match k_re a_star_rx id_fconv pat_az names_x vs = UAssertionError.
+Proof. vm_compute. eexists. repeat split. Qed.
+
+(* ------------------------------------------------------------------ *)
+(* F19path (repaired): a path wildcard followed by literal text.
+   la_rx la = the mask .+(?=la): the longest non-empty prefix that is followed
+   by the text la.                                                       *)
+
+Definition k_path (_ : fid) : fkind := KPath.
+
+Fixpoint la_rx_go (la s : str) : option nat :=
+  match s with
+  | [] => None
+  | _ :: r =>
+    match la_rx_go la r with
+    | Some n => Some (S n)
+    | None => if prefixb la r then Some 1%nat else None
+    end
+  end.
+
+Definition slash_e : str := [47; 101].
+Definition path_rx (_ : fid) (s : str) : option nat := la_rx_go slash_e s.
+
+Definition pat_p : pat := [Lit [112; 47]; Wild (Some 0%nat); Lit slash_e].   (* /p/<x:path>/e *)
+Definition p_a_b_e : str := [112; 47; 97; 47; 98; 47; 101].                  (* "p/a/b/e" *)
+
+Lemma path_lookahead_witness :
+  let filt := handler k_path path_rx id_fconv in
+  exists vs,
+    match1 filt pat_p p_a_b_e = Some vs /\
+    vs = [[97; 47; 98]] /\
+    (* the builder as repaired: the value is validated in front of "/e" *)
+    url_of_match k_path path_rx id_fconv pat_p names_x vs = UOk p_a_b_e /\
+    (* the value standing alone — what the unrepaired assertion looked at — is rejected *)
+    validate k_path path_rx id_fconv 0%nat (PStr [97; 47; 98]) [] = Some UAssertionError.
+Proof. vm_compute. eexists. repeat split. Qed.
+
+(* ------------------------------------------------------------------ *)
+(* non-vacuity                                                           *)
+
+Ltac valid := unfold valid_str; repeat (constructor; [reflexivity|]); constructor.
+Ltac names := split; [reflexivity | unfold named; simpl; repeat constructor; simpl; intuition discriminate].
+
+(* /a/<x>/<:re([a-z]+)>-B/<z>   on  "a/X/q-B/Z"  ([a-z]+ as the run of lower-case letters) *)
+Fixpoint count_lower (s : str) : nat :=
+  match s with
+  | c :: r => if (97 <=? c) && (c <=? 122) then S (count_lower r) else O
+  | [] => O
+  end.
+Definition lower_rx (_ : fid) (s : str) : option nat :=
+  match count_lower s with O => None | n => Some n end.
+
+Definition pat_mixed : pat :=
+  [Lit [97; 47]; Wild None; Lit [47]; Wild (Some 0%nat); Lit [45; 66; 47]; Wild None].
+Definition names_mixed : list str := [[120]; anon_prefix ++ [48]; [122]].
+Definition path_mixed : str := [97; 47; 88; 47; 113; 45; 66; 47; 90].
+
+Lemma identity_nonvacuous_lemma :
+  lits_ok pat_mixed = true /\
+  identity_fmt k_re pat_mixed = true /\
+  names_ok pat_mixed names_mixed /\
+  valid_str path_mixed /\
+  match1 (handler k_re lower_rx id_fconv) pat_mixed path_mixed = Some [[88]; [113]; [90]] /\
+  validates k_re lower_rx id_fconv pat_mixed [[88]; [113]; [90]] = true /\
+  url_of_match k_re lower_rx id_fconv pat_mixed names_mixed [[88]; [113]; [90]] = UOk path_mixed.
+Proof.
+  split; [reflexivity|]. split; [reflexivity|]. split; [names|]. split; [valid|].
+  split; [reflexivity|]. split; reflexivity.
+Qed.
+
+(* /n/<x:int>-<:int>/<z>  on  "n/007--0/q":  url "n/7-0/q" *)
+Definition pat_ints : pat :=
+  [Lit [110; 47]; Wild (Some 0%nat); Lit [45]; Wild (Some 0%nat); Lit [47]; Wild None].
+Definition names_ints : list str := [[120]; anon_prefix ++ [48]; [122]].
+Definition path_ints : str := [110; 47; 48; 48; 55; 45; 45; 48; 47; 113].
+Definition url_ints : str := [110; 47; 55; 45; 48; 47; 113].
+Definition vs_ints : list value := [TAG_INT :: [55]; TAG_INT :: [48]; [113]].
+
+Lemma int_nonvacuous_lemma :
+  lits_ok pat_ints = true /\
+  int_or_plain k_int pat_ints = true /\
+  no_adjacent_int k_int pat_ints = true /\
+  names_ok pat_ints names_ints /\
+  valid_str path_ints /\
+  match1 (handler k_int no_rx id_fconv) pat_ints path_ints = Some vs_ints /\
+  url_of_match k_int no_rx id_fconv pat_ints names_ints vs_ints = UOk url_ints /\
+  url_ints <> path_ints /\
+  match1 (handler k_int no_rx id_fconv) pat_ints url_ints = Some vs_ints.
+Proof.
+  split; [reflexivity|]. split; [reflexivity|]. split; [reflexivity|]. split; [names|]. split; [valid|].
+  split; [reflexivity|]. split; [reflexivity|]. split; [discriminate | reflexivity].
+Qed.
+
+(* adjacent wildcards, leading and trailing literal: "ab" <x> <y:int> "c" "d" *)
+Definition pat_adj : pat := [Lit [97; 98]; Wild None; Wild (Some 0%nat); Lit [99]; Lit [100]].
+Lemma shape_nonvacuous_lemma :
+  lits_ok pat_adj = true /\
+  url_of_pat k_int no_rx id_fconv pat_adj names_xy [] [([120], PStr [88]); ([121], PInt (-7)%Z)]
+  = UOk [97; 98; 88; 45; 55; 99; 100] /\
+  url_of_pat k_int no_rx id_fconv pat_adj names_xy [] [([120], PStr [88])] = UKeyError.
+Proof. repeat split. Qed.
